@@ -21,6 +21,7 @@ import (
 type worldCase struct {
 	Seed     uint64   `json:"seed"`
 	Replicas int      `json:"replicas"`
+	Remotes  int      `json:"remotes,omitempty"` // 0 or 1: one remote "origin"; 2: "origin" and "alt"
 	Actions  []Action `json:"actions"`
 }
 
@@ -28,8 +29,46 @@ func genWorldCase(t *rapid.T) worldCase {
 	c := worldCase{}
 	c.Seed = rapid.Uint64().Draw(t, "seed")
 	c.Replicas = rapid.IntRange(2, 3).Draw(t, "replicas")
-	c.Actions = GenActions(c.Replicas, 8, Scale(40, 110), 2).Draw(t, "actions")
+	c.Remotes = rapid.SampledFrom([]int{1, 1, 2}).Draw(t, "remotes")
+	c.Actions = GenActionsR(c.Replicas, c.Remotes, 8, Scale(40, 110), 2).Draw(t, "actions")
 	return c
+}
+
+// sameSetDifferentOrder compares, for every bug that two replicas both hold with the same SET of
+// operations, the order and the compiled snapshot. That is the antecedent of C01 ("each has received every
+// operation the other knows"): it does not need equal refs, and it is met in the middle of a history when
+// two replicas merged the same heads on their own (cross-merge through two remotes).
+func sameSetDifferentOrder(w *World, a, b *Replica) (sig, detail string, compared int) {
+	for _, id := range localBugIds(a.Repo) {
+		ha, errA := a.Repo.ResolveRef("refs/bugs/" + id)
+		hb, errB := b.Repo.ResolveRef("refs/bugs/" + id)
+		if errA != nil || errB != nil || ha == hb {
+			continue // absent on one side, or the very same history: nothing to compare
+		}
+		ba, err := bug.Read(a.Repo, entity.Id(id))
+		if err != nil {
+			continue // reported by the exec monitor
+		}
+		bb, err := bug.Read(b.Repo, entity.Id(id))
+		if err != nil {
+			continue
+		}
+		ia, ib := opIdsOf(ba), opIdsOf(bb)
+		if !sameSet(ia, ib) {
+			continue
+		}
+		compared++
+		if strings.Join(ia, ",") != strings.Join(ib, ",") {
+			return "order-differs-with-equal-operation-sets", fmt.Sprintf("bug %s: replicas %d and %d hold the same %d operations under different heads (%s, %s)\nreplica %d %v\nreplica %d %v", id, a.Idx, b.Idx, len(ia), ha, hb, a.Idx, ia, b.Idx, ib), compared
+		}
+		sa, sb := ProjectSnapshot(ba.Compile()), ProjectSnapshot(bb.Compile())
+		sa.MustActors, sa.MayActors = sa.Actors, sa.Actors
+		sb.MustActors, sb.MayActors = sb.Actors, sb.Actors
+		if aspect, d := refmodel.Diff(sa, sb); aspect != "" {
+			return "snapshot-differs-with-equal-operation-sets/" + aspect, fmt.Sprintf("bug %s replicas %d vs %d: %s", id, a.Idx, b.Idx, d), compared
+		}
+	}
+	return "", "", compared
 }
 
 // mergeShapes describes every merge commit of a DAG as "a/b": the number of
@@ -92,7 +131,7 @@ func actionKinds(acts []Action) string {
 }
 
 func runC01(tb report.TB, rep *report.Reporter, c worldCase) {
-	w, err := NewWorld(c.Replicas, c.Seed)
+	w, err := NewWorldN(c.Replicas, c.Remotes, c.Seed)
 	if err != nil {
 		tb.Fatalf("harness: world: %v", err)
 	}
@@ -100,8 +139,27 @@ func runC01(tb report.TB, rep *report.Reporter, c worldCase) {
 	fail := func(sig, detail string) bool {
 		return rep.Fail(tb, "C01/"+sig, detail, c)
 	}
+	midCompared := 0
 	for i, a := range c.Actions {
-		if err := w.Exec(a); err != nil {
+		err := w.Exec(a)
+		if err == nil && a.Kind == "pull" {
+			// only a pull can make the operation set of a replica equal to that of another one
+			me := w.Replicas[a.R%len(w.Replicas)]
+			for _, other := range w.Replicas {
+				if other == me {
+					continue
+				}
+				sig, detail, n := sameSetDifferentOrder(w, me, other)
+				midCompared += n
+				if sig != "" {
+					if fail(sig, fmt.Sprintf("after action #%d %s: %s", i, a, detail)) {
+						rep.Case(actionKinds(c.Actions), false, []string{"abandoned"}, nil)
+						return
+					}
+				}
+			}
+		}
+		if err != nil {
 			if ee, ok := err.(*ExecError); ok {
 				fail("exec/"+ee.Sig, fmt.Sprintf("action #%d %s: %s", i, a, ee.Detail))
 				rep.Case(actionKinds(c.Actions), false, []string{"abandoned"}, nil)
@@ -128,6 +186,19 @@ func runC01(tb report.TB, rep *report.Reporter, c worldCase) {
 	}
 	defer remote.Close()
 	remoteRefs := refsUnder(remote, "refs/bugs/")
+	for _, name := range w.Remotes[1:] {
+		other, err := w.OpenRemoteNamed(name)
+		if err != nil {
+			tb.Fatalf("harness: %v", err)
+		}
+		refs := refsUnder(other, "refs/bugs/")
+		_ = other.Close()
+		if fmt.Sprint(refs) != fmt.Sprint(remoteRefs) {
+			if fail("remotes-differ-after-sync", fmt.Sprintf("%s: %v\norigin: %v", name, refs, remoteRefs)) {
+				return
+			}
+		}
+	}
 	for _, r := range w.Replicas {
 		refs := refsUnder(r.Repo, "refs/bugs/")
 		if fmt.Sprint(refs) != fmt.Sprint(remoteRefs) {
@@ -183,7 +254,14 @@ func runC01(tb report.TB, rep *report.Reporter, c worldCase) {
 		}
 	}
 	sort.Strings(shapes)
-	classes := []string{fmt.Sprintf("replicas:%d", c.Replicas), fmt.Sprintf("sync-rounds:%d", rounds)}
+	classes := []string{fmt.Sprintf("replicas:%d", c.Replicas), fmt.Sprintf("remotes:%d", len(w.Remotes)), fmt.Sprintf("sync-rounds:%d", rounds)}
+	if midCompared > 0 {
+		classes = append(classes, "equal-sets-under-different-heads-compared")
+		rep.Class("mid-history-equal-set-comparisons", midCompared)
+	}
+	if w.IdEdits > 0 {
+		classes = append(classes, "identity-edited")
+	}
 	unequal := false
 	for _, s := range dedup(shapes) {
 		classes = append(classes, "merge:"+s)
